@@ -458,7 +458,14 @@ class TensorProductCell(AbstractCell):
         raise NotImplementedError(f"TensorProductCell.sub_entities({dim}) is not implemented.")
 
     def _lt(self, other) -> bool:
-        return self._ufl_hash_data_() < other._ufl_hash_data_()
+        def key(data):
+            # Names sort before nested products so that differently nested
+            # tensor product cells can be compared
+            if isinstance(data, str):
+                return (0, data)
+            return (1, tuple(key(d) for d in data))
+
+        return key(self._ufl_hash_data_()) < key(other._ufl_hash_data_())
 
     @property
     def cellname(self) -> str:
